@@ -3,5 +3,8 @@ CONSTANTS
   N = 4
   Txns = {1, 2}
   ByteRMW = FALSE
+  EarlyRelease = FALSE
+  FreeFirst = FALSE
+  CancelAlloc = FALSE
 INVARIANTS NeverTwice Coherent
 CHECK_DEADLOCK FALSE
